@@ -2,6 +2,8 @@ use crate::common::{Opts, Recorder};
 
 pub mod c01;
 pub mod encscript;
+pub mod msgemit;
+pub mod fuzzoracle;
 pub mod c02;
 pub mod c03;
 pub mod c04;
